@@ -554,8 +554,15 @@ def m3(ctx, al, count):
                        "mull": T((A * B) * C), "mulr": T(A * (B * C)), "distl": T(A * (B + C)),
                        "distr": T(A * B + A * C)}
             elif op == "pow":
-                p = rand_poly(rng, 5, -4, 6)
-                n = rng.randint(0, 5)
+                if rng.random() < 0.5:
+                    p = rand_poly(rng, 5, -4, 6)
+                    n = rng.randint(0, 5)
+                else:
+                    # high exponents (every bit pattern up to 16) on small polynomials: p**n is the n-fold product
+                    # whatever scheme computes it
+                    pw = rng.sample(range(-2, 4), rng.choice([2, 2, 3]))
+                    p = {k: Fraction(rng.choice([1, -1, 1, 2, -1])) for k in pw}
+                    n = rng.randint(6, 16)
                 while n > 0 and not fits_mul(*([p] * n)):
                     n -= 1
                 info.update(p=show(p), n=n)
